@@ -90,7 +90,10 @@ MAN = {
  ("C20", 111): ("not-in-property", "base inode number of the root node"),
  ("C20", 92): ("not-in-property", "disable_verification ignored (stricter); C01's ladder"),
  ("C20", 118): ("other-check", "mounted layer not registered: ./check C01 reports it"),
- ("C20", 87): ("MISS", "successful fs.Mount releases its layer reference (mounted layer dies at TTL expiry): no check drives a successful fs.Mount with a real FUSE mount; an fs-level holder pass for C12 is being added (see DESIGN 11.7)"),
+ ("C20", 87): ("other-check", "was a MISS of every check: a successful fs.Mount releases its layer reference, the mounted layer dies at TTL expiry. No check drove a successful fs.Mount; TestVerifC12Mount (real kernel FUSE mount, reads after the TTL) was added and ./check C12 reports it as mounted-layer-stopped-serving"),
+ ("C03", 49): ("equivalent", "encoder not returned to the pool (allocation only)"),
+ ("C03", 30): ("equivalent", "internal length assertion of the footer builder; the buffer always has FooterSize bytes"),
+ ("C03", 114): ("not-in-property", "Writer.closed flag after closeWithCombine (a second Close)"),
 }
 CFG = re.compile(r"^New[A-Z]|^new[A-Z]")
 out, lines = {}, []
